@@ -3400,7 +3400,7 @@ func ruleTerminalGroupNotRerun(r *Run, rule, fnKey, group string) {
 // crash fixAction gives an action stored Running with a finished attempt its verdict in memory only, fixBlock goes on with
 // the sequence at once, and runAction returns immediately for such an action: its write is the only thing that makes the
 // verdict durable before the next action of the sequence is invoked. Every returning path of runAction (the test hook aside)
-// writes the action, in place or deferred.
+// writes the action, in place or deferred, or hands it to the action machine, whose End writes it.
 func ruleRunActionWritesVerdict(r *Run, rule string) {
 	fn := r.fnByKey(rule, smKey("runAction"))
 	if fn == nil {
@@ -3425,6 +3425,10 @@ func ruleRunActionWritesVerdict(r *Run, rule string) {
 				hook = true
 			}
 			if name, ok := isUpdaterCall(e); ok && name == "UpdateAction" && !e.Maybe {
+				wrote = true
+			}
+			// a path that hands the action to the action machine is written by that machine (Runner.End, C08-R2)
+			if e.Kind == EvCall && strings.HasSuffix(CalleeKey(e), "statemachine.Run") {
 				wrote = true
 			}
 		}
